@@ -9,7 +9,7 @@ import sys
 
 from .tlc import BUILD, VERIF
 
-REPO = '/repo'
+REPO = os.environ.get('VERIF_REPO', '/repo')
 
 
 def repo_hash():
